@@ -91,6 +91,16 @@ class World:
         }
 
 
+def client_name(job, c):
+    '''the name a client gives is free text (comms.acquire(name)): every third history uses an empty / missing one'''
+    v = (int(job['id']) // 3) % 3
+    if v == 1 and c == 1:
+        return ''
+    if v == 2 and c == 2:
+        return None
+    return f'client{c}'
+
+
 def run_job(job):
     w = World(job['clients'], job.get('chunk', 0))
     steps = [{'ev': 'Init', 'args': {'c': 0}, 'st': w.snapshot(), 'obs': {'told': [], 'client_acquired': False}}]
@@ -115,14 +125,14 @@ def run_job(job):
 
                 dawgie.security.connect = connect
                 try:
-                    w.socks[c] = comms.acquire(f'client{c}')
+                    w.socks[c] = comms.acquire(client_name(job, c))
                     obs['client_acquired'] = True
                 except TimeoutError:
                     pass
                 finally:
                     dawgie.security.connect = orig
             else:
-                w.send_cmd(c, Func.acquire, f'client{c}')
+                w.send_cmd(c, Func.acquire, client_name(job, c))
         elif ev == 'Poll':
             if not st0['req'][str(c)]:
                 skipped += 1
